@@ -32,6 +32,12 @@ def jobs(tier):
     J.append(seq("1,0,0,0", len=4 if q else 5, keys=4, hmap=1, flags=1, nresize=3, workers=8))
     J.append(seq(len=6, keys=2, hmap=1, flags=3, count_commit_order=0, nresize=3, workers=8))
     J.append(seq(len=6 if q else 7, keys=4, hmap=1, flags=1, maxb=2, nresize=3, workers=8))
+    # counter-driven resizing against a small maximum (one key, equal hashes: no chain-length growth interferes), and with the
+    # resize worker never scheduled (queued lazy resizes stay pending while further operations arbitrate the target)
+    for mx in (2, 4):
+        J.append(seq(len=9 if q else 10, keys=1, hmap=0, alpha_seq=1, nresize=2, flags=3, count_commit_order=0, maxb=mx, workers=8))
+    J.append(seq(len=9 if q else 10, keys=1, hmap=0, alpha_seq=1, nresize=2, flags=3, count_commit_order=0, init=8, nosettle=1, workers=8))
+    J.append(seq(len=8, keys=2, hmap=1, alpha_seq=1, nresize=2, flags=3, count_commit_order=0, init=8, nosettle=1, workers=8))
     J.append(seq("1,0,0,0", len=4 if q else 5, keys=2, hmap=1, flags=3, count_commit_order=1, nresize=3, workers=8))
     # the same enumeration with the table bound to real flavors
     for b, env in REAL:
